@@ -254,6 +254,10 @@ def run_hdc_impl(case, model):
     except IndexError:
         return {"err": "emptySelection", "rec": RHDC.rec}
     except ValueError as e:
+        if RHDC.rec is not None and "mask" in RHDC.rec:
+            # the selection ran; the error comes from the later boundary extraction / point sorting (C15's
+            # subject, e.g. fewer boundary cells than neighbours): compare the selection, skip fm
+            return {"err": "ValueError-after-selection", "msg": str(e), "rec": RHDC.rec}
         return {"err": "ValueError", "msg": str(e), "rec": RHDC.rec}
     rec = RHDC.rec
     return {"axes": [np.array(a, dtype=float) for a in c.cell_center_coordinates], "fm": float(c.fm),
@@ -368,6 +372,16 @@ def process_hdc(ck, case):
         ck.count("C_impl_error=" + impl["err"])
         if impl["err"] == "ValueError" and "nan" in impl.get("msg", ""):
             return  # nan in cell averaged pdf: the code refuses, nothing to compare
+        if impl["err"] == "ValueError-after-selection":
+            rec = impl["rec"]
+            bad = [] if rec["warned"] else selection_oracle(rec["probs"], rec["limit"], rec["mask"], rec["last"], rec["warned"])
+            for pred, detail in bad:
+                ck.fail({"entry": "HighestDensityContour", "predicate": pred}, case, detail)
+            if not bad and "err" not in mod and not rec["warned"]:
+                imask = "".join("1" if v else "0" for v in rec["mask"].ravel())
+                if imask != mod["mask"] and not same_up_to_ties(rec["probs"], imask, mod["mask"]):
+                    ck.diverge("hdc-pipeline:" + case["mode"], case, "selected region differs (contour later failed in boundary extraction)")
+            return
         if mod.get("err") != impl["err"]:
             ck.diverge("hdc-pipeline", case, f"impl error {impl['err']} model {mod}")
         return
